@@ -304,6 +304,24 @@ nest("stmt_mix", lambda n: rep("start if to say (true) start jasi (true) start "
      + rep("comot end end end ", n // 3, 10) + "\n")
 
 
+# FLAT operator chains (built by the Pratt loop without recursion: only the checker's and the evaluator's probes
+# bound them) in every position an expression can take, incl. positions that are walked by a read-only pass BEFORE
+# the checking walk: the `return` expression of a function (return-type pre-pass), the first argument of
+# `command(..)`, typed method arguments (seed C08-d2)
+def _flat(n, op="add", leaf="1"):
+    return rep(f"{leaf} {op} ", n, 60) + leaf
+
+
+nest("flat_return", lambda n: "do f() start\n    return " + _flat(n) + "\nend\nshout(f())\n")
+nest("flat_return_and", lambda n: "do f() start\n    return " + _flat(n, "and", "true") + "\nend\nshout(f())\n")
+nest("flat_make", lambda n: "make x get " + _flat(n) + "\nshout(x)\n")
+nest("flat_cond", lambda n: "if to say (" + _flat(n) + " pass 0) start\nend\n")
+nest("flat_arg", lambda n: "do f(x) start\n    return x\nend\nshout(f(" + _flat(n) + "))\n")
+nest("flat_command_arg", lambda n: "make c get command(" + _flat(n, "add", "\"a\"") + ")\nshout(typeof(c))\n")
+nest("flat_method_arg", lambda n: "shout(\"abc\".find(" + _flat(n, "add", "\"a\"") + "))\n")
+nest("flat_index", lambda n: "make a get [1]\nshout(a[" + _flat(n, "times", "0") + "])\n")
+nest("flat_return_nested_fn", lambda n: "do g() start\n    do f() start\n        return " + _flat(n) + "\n    end\n    return f()\nend\nshout(g())\n")
+
 # constructs the parser builds with a LOOP: their depth is not bounded by the parser's own probe, so a helper that
 # recurses on them with a small frame needs far more levels than the nested constructs to overrun 8 MiB
 CHAINS = ["binary_chain", "and_chain", "method_chain", "index_chain", "call_chain", "member_chain", "assign_index_chain"]
@@ -355,6 +373,24 @@ data("wrap_chunk_pass", lambda n, chunk=500: "do id(x) start\n    return x\nend\
      + _wrap_loop(n, "make b get id(a)\nshout(b.len())\n", chunk), construct="copy")
 data("wrap_chunk_push", lambda n, chunk=500: _wrap_loop(n, "make b get []\nb.push(a)\nshout(b.len())\n", chunk),
      construct="copy")
+
+
+# the deep part BEHIND shallower sibling arrays (association-list cells `[[key, value], rest]`, `[0, [1], rest]`):
+# a depth measure that follows the first array element, or the first element, sees depth 2 (seed C08-d1)
+def _wrap_loop_sibling(n, tail, chunk, head):
+    lit = (head * chunk) + "a" + "]" * chunk
+    it = max(1, n // chunk)
+    return ("make a get [0]\nmake i get 0\n"
+            f"jasi (i small pass {it}) start\n    a get {lit}\n    i get i add 1\nend\n" + tail)
+
+
+for _nm, _head in (("assoc", "[[0, 1], "), ("mixed", "[0, [1], "), ("three", "[[0], [[1]], ")):
+    data(_nm + "_chunk", lambda n, chunk=500, h=_head: _wrap_loop_sibling(n, "shout(a.len())\n", chunk, h), construct="copy")
+    data(_nm + "_chunk_shout", lambda n, chunk=500, h=_head: _wrap_loop_sibling(n, "shout(a)\n", chunk, h), construct="display")
+    data(_nm + "_chunk_pass", lambda n, chunk=500, h=_head: "do id(x) start\n    return x\nend\n"
+         + _wrap_loop_sibling(n, "make b get id(a)\nshout(b.len())\n", chunk, h), construct="copy")
+    data(_nm + "_chunk_join", lambda n, chunk=500, h=_head: _wrap_loop_sibling(n, "shout(a.join(\",\").len())\n", chunk, h),
+         construct="join")
 
 
 # ------------------------------------------------------------------------------------------------
